@@ -69,6 +69,10 @@ def execute(prop, cfg, ops=None, streams=None, max_ops=None):
     except Viol as v:
         viol = {"inv": v.inv, "sig": v.sig, "detail": v.detail, "step": min(step, len(rec) - 1) if rec else -1}
         h.update(("VIOL" + v.inv + "|" + v.sig).encode())
+    finally:
+        c = getattr(world, "close", None)
+        if c:
+            c()
     st = world.stats
     return {
         "cfg": cfg,
@@ -180,9 +184,10 @@ def merge_run(agg, run, res):
     agg["ticks"] += res.get("ticks", 0)
     agg["stats"].update(res["stats"])
     agg["states"].update(res["states"])
-    agg["run_digest"][run] = res["digest"]
+    if run < 64 or run % 53 == 0:
+        agg["run_digest"][run] = res["digest"]
     if res["nontrivial"]:
-        agg["digests_nt"].add(res["digest"])
+        agg["digests_nt"].add(int(res["digest"][:16], 16))
     if res["violation"]:
         if len(agg["violations"]) < 400:
             agg["violations"].append({"run": run, "cfg": res["cfg"], "ops": res["ops"], "violation": res["violation"]})
